@@ -938,6 +938,21 @@ def rule_e10(repo, col):
     col.floor("E10.class_rows", n, 9)
 
 
+def rule_e11(repo, col):
+    """ClauseDB.consult: the line table of a file is registered BEFORE its statements are added: an error raised while loading (an 'Unexpected fact' in a consulted file) formats
+    its location through self.lineno(), which indexes line_info with the file's identifier"""
+    f = repo.func("problog.clausedb", "ClauseDB.consult")
+    m = f.module
+    reg = [st for st in ast.walk(f.node) if isinstance(st, ast.Expr) and isinstance(st.value, ast.Call) and norm(st.value.func) == "self.line_info.append"]
+    load = [st for st in ast.walk(f.node) if isinstance(st, (ast.Return, ast.Assign, ast.Expr)) and any(isinstance(x, ast.Call) and norm(x.func) == "self.add_all" for x in ast.walk(st))]
+    if len(reg) != 1 or len(load) != 1:
+        raise AnalysisError("ClauseDB.consult: registration of the line table / loading of the program not found")
+    col.decide("E11", m, reg[0], reg[0].lineno < load[0].lineno, "the line table of a consulted file is registered before the file is loaded",
+               "ClauseDB.consult appends the file's line table after add_all(program): while the statements are being added the file's identifier has no entry in line_info yet, so an "
+               "error in the consulted file (e.g. the statement 'X.') is reported as IndexError from lineno() instead of a GroundingError with the location", construct="consult: line table registered after loading",
+               function="ClauseDB.consult")
+
+
 def run(repo, col):
     col.rule("E9", "no contradictory key beliefs about a local dictionary (.get here, [k] there)")
     col.rule("E8", "the error-location formatter tolerates locations without an offset")
@@ -959,3 +974,5 @@ def run(repo, col):
     rule_e9(repo, col)
     col.rule("E10", "statements of a special Term kind are refused with a ProbLog error")
     rule_e10(repo, col)
+    col.rule("E11", "consult registers the line table before loading")
+    rule_e11(repo, col)
